@@ -5,5 +5,6 @@ import LettreVerif.Props.C10
 #print axioms LV.C10.sevenbit_ok
 #print axioms LV.C10.sevenbit_requested_ok
 #print axioms LV.C10.roundtrip_identity
+#print axioms LV.C10.roundtrip_quoted_printable
 #print axioms LV.C10.roundtrip_base64
 #print axioms LV.C10.refusal_matrix
